@@ -418,6 +418,8 @@ for _p, _t in _R11.items():
     CHECKS[_p]["text"] += _t
 CHECKS["C06"]["text"] += (" In seed_keypair, once the public key is written, sk[32..64) is only written by the copy from pk, so generating the "
                           "key pair in place (pk == sk + 32) works (R6.7).")
+CHECKS["C04"]["text"] += " The SipHash absorbing loops read every word of the stride they advance by, once (R4.13)."
+CHECKS["C12"]["text"] += " In _needs_rehash the capacities handed to the Argon2 string decoder are covered by the buffers they describe (R12.12)."
 _PENDING = "not claimed"
 NOT_APPLICABLE = {
     "C01": "every clause is an equality between computed byte strings and a mathematical specification over all keys/nonces/lengths/backends: "
